@@ -160,6 +160,12 @@ def _inline_return_temps(fn) -> bool:
 def _unnegate_ifs(tree) -> bool:
     changed = False
     for n in ast.walk(tree):
+        # not not c  as a test is c
+        if isinstance(n, (ast.If, ast.While, ast.IfExp, ast.Assert)):
+            while isinstance(n.test, ast.UnaryOp) and isinstance(n.test.op, ast.Not) and isinstance(n.test.operand, ast.UnaryOp) and isinstance(n.test.operand.op, ast.Not):
+                n.test = n.test.operand.operand
+                changed = True
+    for n in ast.walk(tree):
         if isinstance(n, ast.If) and n.orelse and isinstance(n.test, ast.UnaryOp) and isinstance(n.test.op, ast.Not) \
                 and not (len(n.orelse) == 1 and isinstance(n.orelse[0], ast.If)):
             n.test = n.test.operand
@@ -190,6 +196,283 @@ def _desugar_ifexp_statements(tree) -> bool:
     return changed
 
 
+_SPECIAL = set(dir(object)) | {"__call__", "__len__", "__iter__", "__next__", "__getitem__", "__setitem__", "__contains__", "__enter__", "__exit__",
+                                "__add__", "__sub__", "__mul__", "__neg__", "__bool__", "__copy__", "__deepcopy__", "__post_init__", "__lt__", "__le__", "__gt__", "__ge__"}
+
+
+def _inline_trivial_helpers(tree) -> bool:
+    """A private helper whose whole body is `return <expr>` is read at its call sites as that expression (parameters replaced by the
+    arguments):  def _lead(self, k): return self.a(k) * self.h ** (k + 1)   ...   self._lead(j)  ->  self.a(j) * self.h ** (j + 1).
+    Extract-method / inline-method are the most common behaviour-preserving edits; folding the one-expression case here gives every
+    rule the same view of both spellings.  Only names that are defined once in the module, start with an underscore, carry no
+    decorator other than staticmethod / classmethod and are not recursive; a helper all of whose uses were inlined is dropped from
+    the tree.  (Analysis-level identity: an argument used twice is duplicated, dynamic dispatch to an override in another module is
+    not seen.)"""
+    import copy
+    owners = [tree] + [n for n in tree.body if isinstance(n, ast.ClassDef)]
+    by_name: Dict[str, List] = {}
+    for ow in owners:
+        for fn in ow.body:
+            if isinstance(fn, (ast.FunctionDef, ast.AsyncFunctionDef)):
+                by_name.setdefault(fn.name, []).append((ow, fn))
+    cands = {}
+    for name, lst in by_name.items():
+        if len(lst) != 1 or not name.startswith("_") or name in _SPECIAL:
+            continue
+        ow, fn = lst[0]
+        if not isinstance(fn, ast.FunctionDef):
+            continue
+        decos = [ast.unparse(d) for d in fn.decorator_list]
+        if any(d not in ("staticmethod", "classmethod") for d in decos):
+            continue
+        a = fn.args
+        if a.vararg or a.kwarg or a.posonlyargs or a.kwonlyargs:
+            continue
+        body = [st for i, st in enumerate(fn.body) if not (i == 0 and isinstance(st, ast.Expr) and isinstance(st.value, ast.Constant) and isinstance(st.value.value, str))]
+        if len(body) != 1 or not isinstance(body[0], ast.Return) or body[0].value is None:
+            continue
+        ret = body[0].value
+        params = [x.arg for x in a.args]
+        is_method = isinstance(ow, ast.ClassDef)
+        static = "staticmethod" in decos
+        if is_method and not static and not params:
+            continue
+        bad = False
+        for x in ast.walk(ret):
+            if isinstance(x, (ast.Lambda, ast.Yield, ast.YieldFrom, ast.Await, ast.NamedExpr)):
+                bad = True
+            if isinstance(x, ast.comprehension) and any(isinstance(y, ast.Name) and y.id in params for y in ast.walk(x.target)):
+                bad = True
+            if isinstance(x, ast.Attribute) and x.attr == name:
+                bad = True
+            if isinstance(x, ast.Name) and x.id == name:
+                bad = True
+            if isinstance(x, ast.Call) and isinstance(x.func, ast.Name) and x.func.id == "super":
+                bad = True
+        if bad:
+            continue
+        cands[name] = (ow, fn, ret, params, is_method, static)
+    if not cands:
+        return False
+    changed = False
+    inlined_sites: Dict[str, int] = {}
+
+    def bind(name, call, recv_expr):
+        ow, fn, ret, params, is_method, static = cands[name]
+        ps = list(params)
+        env = {}
+        if is_method and not static:
+            env[ps[0]] = recv_expr
+            ps = ps[1:]
+        if any(isinstance(x, ast.Starred) for x in call.args) or any(k.arg is None for k in call.keywords) or len(call.args) > len(ps):
+            return None
+        for p_, v in zip(ps, call.args):
+            env[p_] = v
+        for k in call.keywords:
+            if k.arg not in ps or k.arg in env:
+                return None
+            env[k.arg] = k.value
+        defaults = fn.args.defaults
+        all_params = [x.arg for x in fn.args.args]
+        for i, d in enumerate(defaults):
+            pn = all_params[len(all_params) - len(defaults) + i]
+            env.setdefault(pn, d)
+        if any(p_ not in env for p_ in ps):
+            return None
+
+        class Sub(ast.NodeTransformer):
+            def visit_Name(self, n):
+                if isinstance(n.ctx, ast.Load) and n.id in env:
+                    return copy.deepcopy(env[n.id])
+                return n
+        return Sub().visit(copy.deepcopy(ret))
+
+    for _ in range(4):
+        round_changed = False
+        for ow in owners:
+            for fn in [x for x in ow.body if isinstance(x, (ast.FunctionDef, ast.AsyncFunctionDef))]:
+                recv_names = set()
+                if isinstance(ow, ast.ClassDef):
+                    recv_names = {ow.name, "self", "cls"}
+                    if fn.args.args:
+                        recv_names.add(fn.args.args[0].arg)
+
+                class Inl(ast.NodeTransformer):
+                    def visit_Call(self, c):
+                        nonlocal round_changed
+                        self.generic_visit(c)
+                        f_ = c.func
+                        new = None
+                        if isinstance(f_, ast.Attribute) and f_.attr in cands and isinstance(f_.value, ast.Name) and f_.value.id in recv_names \
+                                and cands[f_.attr][0] is ow and cands[f_.attr][1] is not fn:
+                            new = bind(f_.attr, c, f_.value)
+                            nm = f_.attr
+                        elif isinstance(f_, ast.Name) and f_.id in cands and cands[f_.id][0] is tree and cands[f_.id][1] is not fn:
+                            new = bind(f_.id, c, None)
+                            nm = f_.id
+                        if new is None:
+                            return c
+                        inlined_sites[nm] = inlined_sites.get(nm, 0) + 1
+                        round_changed = True
+                        return ast.copy_location(new, c)
+                Inl().visit(fn)
+        if not round_changed:
+            break
+        changed = True
+        # refresh the candidates' return expressions (a helper that called another helper)
+        for name, (ow, fn, ret, params, is_method, static) in list(cands.items()):
+            body = [st for st in fn.body if isinstance(st, ast.Return)]
+            if body:
+                cands[name] = (ow, fn, body[-1].value, params, is_method, static)
+    if changed:
+        for name, (ow, fn, *_rest) in cands.items():
+            if not inlined_sites.get(name):
+                continue
+            refs = 0
+            for x in ast.walk(tree):
+                if (isinstance(x, ast.Attribute) and x.attr == name) or (isinstance(x, ast.Name) and x.id == name):
+                    refs += 1
+                if isinstance(x, ast.Constant) and isinstance(x.value, str) and x.value == name:
+                    refs += 1
+            if refs == 0:
+                ow.body = [st for st in ow.body if st is not fn] or [ast.Pass()]
+    return changed
+
+
+class _NoDesugar(Exception):
+    pass
+
+
+def _pattern_test(subj, pat, binds):
+    """test expression for `subj` matching `pat` (None: always true); captures are appended to `binds` as (name, expression)"""
+    if isinstance(pat, ast.MatchValue):
+        return ast.Compare(left=subj, ops=[ast.Eq()], comparators=[pat.value])
+    if isinstance(pat, ast.MatchSingleton):
+        return ast.Compare(left=subj, ops=[ast.Is()], comparators=[ast.Constant(value=pat.value)])
+    if isinstance(pat, ast.MatchAs):
+        if pat.pattern is None:
+            if pat.name is not None:
+                binds.append((pat.name, subj))
+            return None
+        t = _pattern_test(subj, pat.pattern, binds)
+        if pat.name is not None:
+            binds.append((pat.name, subj))
+        return t
+    if isinstance(pat, ast.MatchOr):
+        tests = []
+        for alt in pat.patterns:
+            b2 = []
+            t = _pattern_test(subj, alt, b2)
+            if b2 or t is None:
+                raise _NoDesugar()
+            tests.append(t)
+        return ast.BoolOp(op=ast.Or(), values=tests)
+    if isinstance(pat, ast.MatchSequence):
+        if any(isinstance(x, ast.MatchStar) for x in pat.patterns):
+            raise _NoDesugar()
+        tests = []
+        if isinstance(subj, (ast.Tuple, ast.List)) and len(subj.elts) == len(pat.patterns):
+            parts = list(subj.elts)
+        elif isinstance(subj, (ast.Tuple, ast.List)):
+            return ast.Constant(value=False)
+        else:
+            tests.append(ast.Compare(left=ast.Call(func=ast.Name(id="len", ctx=ast.Load()), args=[subj], keywords=[]), ops=[ast.Eq()], comparators=[ast.Constant(value=len(pat.patterns))]))
+            parts = [ast.Subscript(value=subj, slice=ast.Constant(value=i), ctx=ast.Load()) for i in range(len(pat.patterns))]
+        for part, sub in zip(parts, pat.patterns):
+            t = _pattern_test(part, sub, binds)
+            if t is not None:
+                tests.append(t)
+        if not tests:
+            return None
+        return tests[0] if len(tests) == 1 else ast.BoolOp(op=ast.And(), values=tests)
+    if isinstance(pat, ast.MatchClass) and not pat.patterns and not pat.kwd_patterns:
+        return ast.Call(func=ast.Name(id="isinstance", ctx=ast.Load()), args=[subj, pat.cls], keywords=[])
+    raise _NoDesugar()
+
+
+def _desugar_match(tree) -> bool:
+    """match S: case P1: B1 ... case _: Bn   ->   if S matches P1: B1  elif ...  else: Bn      for value / singleton / sequence / or /
+    wildcard / capture / argument-free class patterns (anything else is left alone).  Python 3.12 refactorings like to turn if-chains
+    into match statements; the rules read one spelling."""
+    import copy
+    changed = False
+    for owner in list(ast.walk(tree)):
+        for fld in ("body", "orelse", "finalbody"):
+            blk = getattr(owner, fld, None)
+            if not isinstance(blk, list):
+                continue
+            for i, st in enumerate(list(blk)):
+                if not isinstance(st, ast.Match):
+                    continue
+                subj = st.subject
+                pre = []
+                simple = isinstance(subj, (ast.Name, ast.Attribute)) or (isinstance(subj, (ast.Tuple, ast.List)) and all(isinstance(e, (ast.Name, ast.Attribute, ast.Constant)) for e in subj.elts))
+                if not simple:
+                    tmp_name = f"_match_subject_{getattr(st, 'lineno', 0)}"
+                    tmp = ast.Name(id=tmp_name, ctx=ast.Load())
+                    pre = [ast.copy_location(ast.Assign(targets=[ast.Name(id=tmp_name, ctx=ast.Store())], value=subj), st)]
+                    subj = tmp
+                try:
+                    arms = []
+                    for case in st.cases:
+                        binds = []
+                        t = _pattern_test(copy.deepcopy(subj), case.pattern, binds)
+                        body = [ast.copy_location(ast.Assign(targets=[ast.Name(id=nm, ctx=ast.Store())], value=copy.deepcopy(e)), case.body[0]) for nm, e in binds] + case.body
+                        if case.guard is not None:
+                            if binds:
+                                raise _NoDesugar()
+                            t = case.guard if t is None else ast.BoolOp(op=ast.And(), values=[t, case.guard])
+                        arms.append((t, body))
+                except _NoDesugar:
+                    continue
+                node = None
+                tail: List = []
+                for t, body in reversed(arms):
+                    if t is None:
+                        tail = body            # an irrefutable case: later cases are unreachable
+                    else:
+                        tail = [ast.copy_location(ast.If(test=t, body=body, orelse=tail), body[0] if body else st)]
+                new = pre + (tail if tail else [ast.copy_location(ast.Pass(), st)])
+                for n_ in new:
+                    ast.copy_location(n_, st) if not hasattr(n_, "lineno") else None
+                j = next(k for k, x in enumerate(blk) if x is st)
+                blk[j:j + 1] = new
+                changed = True
+    return changed
+
+
+def _positional_self_calls(tree) -> bool:
+    """self.m(a=x, b=y)  ->  self.m(x, y)   when m is a method of the same class in this module and the keywords continue the
+    positional arguments without a gap: one spelling of a call for the rules that bind arguments to parameters by position"""
+    changed = False
+    for cls in [n for n in ast.walk(tree) if isinstance(n, ast.ClassDef)]:
+        sigs: Dict[str, List[str]] = {}
+        dup: Set[str] = set()
+        for fn in cls.body:
+            if isinstance(fn, ast.FunctionDef):
+                decos = [ast.unparse(d) for d in fn.decorator_list]
+                if fn.name in sigs or any(d.endswith(".register") for d in decos):
+                    dup.add(fn.name)
+                    continue
+                if fn.args.vararg or fn.args.posonlyargs:
+                    dup.add(fn.name)
+                    continue
+                sigs[fn.name] = [a.arg for a in fn.args.args][(0 if "staticmethod" in decos else 1):]
+        for c in ast.walk(cls):
+            if isinstance(c, ast.Call) and c.keywords and isinstance(c.func, ast.Attribute) and isinstance(c.func.value, ast.Name) and c.func.value.id in ("self", "cls", cls.name) \
+                    and c.func.attr in sigs and c.func.attr not in dup and not any(isinstance(a, ast.Starred) for a in c.args) and all(k.arg for k in c.keywords):
+                names = sigs[c.func.attr]
+                kw = {k.arg: k.value for k in c.keywords}
+                pos = list(c.args)
+                while len(pos) < len(names) and names[len(pos)] in kw:
+                    pos.append(kw.pop(names[len(pos)]))
+                if len(pos) > len(c.args):
+                    c.args = pos
+                    c.keywords = [k for k in c.keywords if k.arg in kw]
+                    changed = True
+    return changed
+
+
 def _augment(tree) -> bool:
     """x = x + e  ->  x += e   (for + - *; the right operand form only, so that non-commutative meaning is kept)"""
     changed = False
@@ -209,8 +492,14 @@ def _augment(tree) -> bool:
 
 
 def canonicalise(tree: ast.Module) -> ast.Module:
-    changed = _augment(tree)
+    changed = _desugar_match(tree) if os.environ.get("POLARLINT_NO_MATCH_DESUGAR") != "1" else False
+    changed |= _positional_self_calls(tree)
+    changed |= _augment(tree)
     changed |= _drop_self_assignments(tree)
+    if os.environ.get("POLARLINT_NO_HELPER_INLINE") != "1":
+        for fn in _functions(tree):
+            changed |= _inline_return_temps(fn)          # r = e; return r  makes more helpers one-expression helpers
+        changed |= _inline_trivial_helpers(tree)
     for fn in _functions(tree):
         changed |= _propagate_copies(fn)
         changed |= _inline_field_aliases(fn)
